@@ -92,6 +92,7 @@ func VH_C20_AccountUpdate_sym() {
 	vAssert("update_ok", err == nil)
 	newDoc := c20LastWritten()
 	s := c20Crash(initial)
+	c20NoPartialAccountFile(s, old, newDoc)
 	i := s.find("/cfg/Users/bob.yaml")
 	vAssert("account_file_exists_at_crash", i >= 0)
 	if i >= 0 {
@@ -111,6 +112,7 @@ func VH_C20_AccountRename_sym() {
 	vAssert("rename_ok", err == nil)
 	newDoc := c20LastWritten()
 	s := c20Crash(initial)
+	c20NoPartialAccountFile(s, old, newDoc)
 	i, j := s.find("/cfg/Users/bob.yaml"), s.find("/cfg/Users/rob.yaml")
 	vAssert("rename_exactly_one_file_at_crash", (i >= 0) != (j >= 0))
 	if i >= 0 {
@@ -182,4 +184,14 @@ func c20LastWritten() []byte {
 		}
 	}
 	return d
+}
+
+// Every *.yaml file in the accounts directory is loaded as an account on restart: at a crash point none of them
+// may be a partial document (temporary files must not match *.yaml).
+func c20NoPartialAccountFile(s *vFSState, old, newDoc []byte) {
+	for i, n := range s.names {
+		if len(n) > 5 && n[len(n)-5:] == ".yaml" {
+			vAssertEqBytesEither("every_loadable_account_file_complete_at_crash", s.data[i], old, newDoc)
+		}
+	}
 }
